@@ -190,21 +190,40 @@ STREAM_EXPRS = [
 ]
 
 
+PROJECTIONS = {".a": "a", ".name": "name", ".flag": "flag", "doc.flag": "flag", "doc": None, "jq": None}
+
+
+def strict_same(a, b):
+    if type(a) is not type(b):
+        return False
+    if isinstance(a, float):
+        import math
+
+        return a == b and math.copysign(1, a) == math.copysign(1, b)
+    if isinstance(a, list):
+        return len(a) == len(b) and all(strict_same(x, y) for x, y in zip(a, b))
+    if isinstance(a, dict):
+        return list(a) == list(b) and all(strict_same(a[k], b[k]) for k in a)
+    return a == b
+
+
 def rand_json_doc(rnd):
     r = rnd.random()
     if r < 0.75:
         d = {}
         if rnd.random() < 0.85:
-            d["a"] = rnd.choice([0, 1, 2, 3, -1, 5, MV.INT_MAX, "s", None, 1.5])
+            # equal numbers in both JSON spellings (2 and 2.0) meet in one stream
+            d["a"] = rnd.choice([0, 1, 2, 3, -1, 5, MV.INT_MAX, "s", None, 1.5, 2.0, 0.0, -0.0, 1.0, 3.0, 5.0, "2", True])
         if rnd.random() < 0.7:
-            d["b"] = rnd.choice([0, 1, 2, 3])
+            d["b"] = rnd.choice([0, 1, 2, 3, 2.0, 1.0])
         if rnd.random() < 0.6:
-            d["name"] = rnd.choice(["x", "", "é\U0001f431", "a b"])
+            # characters str.splitlines() treats as line ends but JSON allows unescaped inside a string
+            d["name"] = rnd.choice(["x", "", "é\U0001f431", "a b", "l1\u2028l2", "p1\u2029p2", "n\u0085l", "a\u001cb", "tab\there", "q\"uote\\"])
         if rnd.random() < 0.6:
             d["items"] = [rnd.randint(0, 4) for _ in range(rnd.randint(0, 4))]
         if rnd.random() < 0.6:
             d["flag"] = rnd.choice([True, False, True, False, 1, "yes"])
-        return json.dumps(d)
+        return json.dumps(d, ensure_ascii=rnd.random() < 0.4)
     if r < 0.85:
         return rnd.choice(["{", "not json", "{'a': 1}", "[1, 2", "", "   ", "{\"a\": }", "nul", "{\"a\": 1}}"])
     return json.dumps(rnd.choice([1, "s", None, True, [1, 2], [], {}]))
@@ -245,6 +264,26 @@ def check_stream(acc, rnd, runner):
             acc.violation(f"stream malformed-document status obs={st} exp=3", f"celpy {' '.join(argv)} on malformed document {d!r}: status {st}", {"argv": argv, "stdin": d + "\n"})
         if _is_json(d) and st == 3:
             acc.violation("stream well-formed-document status obs=3", f"celpy {' '.join(argv)} on document {d!r}: status 3", {"argv": argv, "stdin": d + "\n"})
+    # projections: the printed line is the JSON text of exactly that member of that document (type-strict: 2 is not 2.0, true is not 1)
+    if expr in PROJECTIONS and "-b" not in opts:
+        lines = out.split("\n")
+        if all(_is_json(d) for d in docs) and len(lines) == len(docs) + 1:
+            for k, d in enumerate(docs):
+                dv = json.loads(d)
+                fld = PROJECTIONS[expr]
+                if fld is not None and not (isinstance(dv, dict) and fld in dv):
+                    continue
+                want = dv if fld is None else dv[fld]
+                acc.hook("projection")
+                try:
+                    got = json.loads(lines[k])
+                    same = strict_same(got, want)
+                except Exception:
+                    got, same = lines[k], False
+                acc.cell("projection", expr, type(want).__name__, "ok" if same else "differ")
+                if not same:
+                    acc.violation(f"stream projection-line-is-not-the-member member-kind={type(want).__name__} obs-kind={type(got).__name__}", f"celpy {' '.join(argv)} on {docs}: line {k + 1} is {lines[k][:60]!r}, document {k + 1} has {want!r:.60}", {"argv": argv, "stdin": stream})
+                    break
     # -b per-document meaning on a single well-formed document
     if "-b" in opts:
         for d, (st, o, e) in zip(docs, singles):
@@ -252,6 +291,28 @@ def check_stream(acc, rnd, runner):
                 want = 0 if o.strip() == "true" else 1
                 if st != want:
                     acc.violation(f"stream -b single-document result={o.strip()} obs={st} exp={want}", f"celpy {' '.join(argv)} on {d!r}: printed {o.strip()} but status {st}", {"argv": argv, "stdin": d + "\n"})
+
+
+def check_slurp(acc, rnd, runner):
+    """-s: one JSON document spread over several lines must behave like the same document on one line."""
+    expr, style = rnd.choice([e for e in STREAM_EXPRS if e[1] in ("doc", None)])
+    opts = ["-d", "doc"] if style == "doc" else []
+    if rnd.random() < 0.5:
+        opts = ["-b"] + opts
+    d = rand_json_doc(rnd)
+    if not _is_json(d):
+        return
+    pretty = json.dumps(json.loads(d), indent=rnd.choice([1, 2, 4]))
+    st1, out1, _ = runner(opts + [expr], d + "\n")
+    st2, out2, _ = runner(["-s"] + opts + [expr], pretty + "\n")
+    acc.hook("main")
+    acc.hook("stream")
+    acc.evaluations += 2
+    acc.nt(["slurp", opts, expr, d])
+    ok = (st1, out1) == (st2, out2)
+    acc.cell("slurp", "-b" if "-b" in opts else "plain", "ok" if ok else "differ")
+    if not ok:
+        acc.violation(f"slurp differs-from-single-line {'-b' if '-b' in opts else 'plain'} status {st2} vs {st1}", f"celpy -s {' '.join(opts)} {expr} on a multi-line document gave ({st2}, {out2[:60]!r}); the same document on one line gave ({st1}, {out1[:60]!r})", {"argv": ["-s"] + opts + [expr], "stdin": pretty + "\n"})
 
 
 def _is_json(d):
@@ -286,8 +347,10 @@ def run(ctx):
             check_null_input(acc, rnd, run_main)
         elif r < 0.7:
             check_syntax_error(acc, rnd, run_main)
-        else:
+        elif r < 0.93:
             check_stream(acc, rnd, run_main)
+        else:
+            check_slurp(acc, rnd, run_main)
     # real processes: the exit status of `python -m celpy`
     m = ctx.scale(40, 1000)
     for j in range(m):
